@@ -68,7 +68,7 @@ def gen_cases(ck, survey):
                         a, bb = rand_interval(rng, n)
                         rep.append({"parts": parts, "a": a, "b": bb})
             else:
-                fixed = [[n], [1] * n, [n // 2, n - n // 2]]
+                fixed = [[n], [1] * n, [n // 2, n - n // 2] if n >= 2 else [n]]
                 comps = fixed + [rand_comp(rng, n) for _ in range(5)]
                 for parts in comps:
                     rep.append({"parts": parts, "a": 0, "b": n})
@@ -100,6 +100,18 @@ def gen_cases(ck, survey):
                     parts = rand_comp(rng, m)
                     a, bb = (0, m) if rng.random() < 0.5 else rand_interval(rng, m)
                 synth.append({"layout": layout, "parts": parts, "a": a, "b": bb})
+            # the cases whose baskets are also run through the natively compiled working-tree root_io.hh
+            if kind in ("toa", "cgem"):
+                if thorough:
+                    for c in rep:
+                        if c["a"] == 0 and c["b"] == n and c["parts"] in ([n], [1] * n, [n // 2, n - n // 2], [1, n - 1], [n - 1, 1]):
+                            c["native"] = True
+                else:
+                    rep[0]["native"] = True      # [n], full interval
+                    if len(rep) > 6:
+                        rep[6]["native"] = True  # [n//2, n-n//2], full interval
+                for c in synth[:(len(synth) if thorough else 4)]:
+                    c["native"] = True
             fc["branches"][b["key"]] = {"kind": kind, "counts": b["counts"], "repart": rep, "synth": synth}
         # "many events" baskets: the real events repeated until one basket holds more than 2^16 elements
         big = sorted((b for b in brs if sum(b["counts"]) >= 600), key=lambda b: -sum(b["counts"]))
@@ -233,6 +245,91 @@ def viol_key(m):
     return f"C02:{m['kind']}:{m['file']}:{m['branch']}:{json.dumps(m.get('detail'), separators=(',', ':'))}"
 
 
+def coqchk_audit(ck, module):
+    """thorough tier: independent checker over the statement file's whole .vo closure"""
+    cmd = ["coqchk", "-silent", "-o", *ck.coq_flags(), module]
+    rc, so, se = vlib.sh(cmd, timeout=3000)
+    ck.checker_cmds.append("coqchk -silent -o <same -R flags> " + module)
+    out = (so + se)
+    summary = [l.strip() for l in out.splitlines() if l.strip().startswith("*")]
+    ck.cov["coqchk"] = {"rc": rc, "summary": summary}
+    if rc != 0 or not any("Axioms: <none>" in l for l in summary):
+        ck.tie_broken("axiom-audit", "coqchk " + module, out[-800:])
+
+
+def native_route(ck, outs_json, per_file):
+    """C++ from the WORKING TREE: the baskets of the marked cases, decoded by the natively compiled root_io.hh readers
+    (pybind11 stand-in, ASan/UBSan; driver native/rootdrv.cc shared with C01), must give the offsets / record keys that the
+    prebuilt extension gave (which the Coq model was compared with)"""
+    try:
+        from props import c01 as _c01
+        exe, err = _c01.build_native(vlib.SRC)
+    except Exception as e:  # noqa: BLE001  (driver not available in this tree: the route is skipped, and said so)
+        ck.cov["native_route"] = f"unavailable ({type(e).__name__}: {str(e)[:120]})"
+        ck.notes.append("native C++ route unavailable: edits to root_io.hh are not observable in this run")
+        return
+    if exe is None:
+        ck.tie_broken("correspondence", "native-build root_io.hh", str(err)[-1200:])
+        return
+    n_cmp = 0
+
+    def one(fname):
+        req = ck.bdir / f"native_{fname}.req"
+        if not req.exists() or req.stat().st_size == 0:
+            return fname, 0, "", ""
+        rc, so, se = vlib.sh(f"{exe} < {req}", timeout=3000,
+                             env={**__import__("os").environ, "ASAN_OPTIONS": "detect_leaks=0"})
+        return fname, rc, so, se
+    with ThreadPoolExecutor(9) as ex:
+        res = list(ex.map(one, sorted(outs_json)))
+    for fname, rc, so, se in res:
+        index = outs_json[fname].get("native_index", [])
+        if not index:
+            continue
+        lines = [l for l in so.splitlines() if l and not l.startswith("BEGIN")]
+        if rc != 0 or len(lines) != len(index):
+            ck.tie_broken("correspondence", f"native-run {fname}", f"rc={rc}, {len(lines)}/{len(index)} answers; {se[-600:]}")
+            continue
+        native_offs = {}   # (branch, kind, case index) -> {basket: offsets} as decoded by the working-tree C++
+        for ent, line in zip(index, lines):
+            n_cmp += 1
+            if line.startswith("T OK"):
+                native_offs.setdefault((ent["branch"], ent["kind"], ent["i"]), {})[ent["basket"]] = \
+                    [int(x) for x in line[4:].split("|")[0].split()]
+            tag = f"{fname}:{ent['branch']}:{ent['kind']}#{ent['i']}:basket{ent['basket']}"
+            if line.startswith("T OK"):
+                got = [int(x) for x in line[4:].split("|")[0].split()]
+                if got != ent["offsets"]:
+                    ck.tie_broken("correspondence", "native-offsets " + tag, f"working-tree C++ offsets {got[:12]} != prebuilt/model {ent['offsets'][:12]}")
+            elif line.startswith("G OK"):
+                fields = dict(kv.split("=", 1) for kv in line[5:].strip().strip(";").split(";") if "=" in kv)
+                offs = [int(x) for x in fields.get("offsets", "[]").split("[")[1].rstrip("]").split(",") if x]
+                has_y = "m_recPositionY" in fields
+                if offs != ent["offsets"] or has_y != ent["has_y"]:
+                    ck.tie_broken("correspondence", "native-cgem " + tag,
+                                  f"working-tree C++ offsets {offs[:12]} has_y={has_y} != prebuilt/model {ent['offsets'][:12]} has_y={ent['has_y']}")
+            else:
+                ck.tie_broken("correspondence", "native-exception " + tag, line[:300])
+        # the property itself on the working-tree C++: per-basket offsets, re-based and concatenated, = the one-basket offsets
+        for (branch, kind, i), bk in native_offs.items():
+            if kind != "repart" or i == 0 or (branch, "repart", 0) not in native_offs:
+                continue
+            one = native_offs[(branch, "repart", 0)].get(0)
+            case = per_file[fname]["branches"][branch]["repart"][i]
+            if one is None or sorted(bk) != list(range(len(case["parts"]))):
+                continue
+            cat = [0]
+            for b in sorted(bk):
+                base = cat[-1]
+                cat += [base + o for o in bk[b][1:]]
+            if cat != one:
+                ck.violation(f"C02:native-decode-concat:{fname}:{branch}:{case['parts']}",
+                             f"working-tree root_io.hh: offsets of baskets {case['parts']} re-based and concatenated {cat[:12]} != "
+                             f"offsets of the one-basket read {one[:12]} ({fname} {branch})",
+                             {"file": fname, "branch": branch, "kind": "native-decode-concat", "detail": [case["parts"]]})
+    ck.cov["native_route"] = {"baskets_compared": n_cmp, "driver": str(exe.name)}
+
+
 def run(ck: vlib.Check):
     ck.cov["rule"] = (
         "cases per registered branch of every fixture (178 branches, 9 files): every interval 0<=a<b<=n of TBranch.array; every "
@@ -255,7 +352,9 @@ def run(ck: vlib.Check):
         "ak.concatenate / slicing behave as the list operations of PV.Model.AwkList",
     ]
     # 1 prove
-    ck.prove(["C02Proofs.v"], "C02.v")
+    proved = ck.prove(["C02Proofs.v"], "C02.v")
+    if proved and ck.tier == "thorough":
+        coqchk_audit(ck, "PV.Props.C02")
     # 2 survey + cases
     datadir = str(vlib.REPO / "tests" / "data")
     rc, so, se = vlib.run_impl_script("c02_impl.py", ["survey", datadir], timeout=600, cache_dir=ck.bdir / "nb_survey")
@@ -286,11 +385,12 @@ def run(ck: vlib.Check):
                 if bc["kind"] == "cgem":
                     items.append(("cg_case", counts, c["parts"], c["a"], c["b"]))
                     index.append((fname, key, "synth-cg", i))
-    model = model_eval(ck, items) if not any(b["kind"] == "proof" for b in ck.broken) else None
+    model = model_eval(ck, items)
     model_by = dict(zip(index, model)) if model is not None else {}
     # 4 implementation runs (one process per fixture, in parallel) + concatenate
     def run_one(fname):
         cp = ck.bdir / f"cases_{fname}.json"
+        per_file[fname]["native_requests"] = str(ck.bdir / f"native_{fname}.req")
         cp.write_text(json.dumps(per_file[fname]))
         return fname, vlib.run_impl_script("c02_impl.py", ["file", datadir, fname, cp], timeout=3000,
                                            cache_dir=ck.bdir / f"nb_{fname}")
@@ -341,11 +441,13 @@ def run(ck: vlib.Check):
         allm += r["mismatches"]
         ck.cov["concat_lists"] = len(lists)
     n_model_cmp = 0
+    outs_json = {}
     for fname, (rc, so, se) in outs:
         if rc != 0:
             ck.tie_broken("correspondence", f"implementation-run {fname}", se[-1500:])
             continue
         r = json.loads(so)
+        outs_json[fname] = r
         ck.cases_bulk(r["evaluations"], {bytes.fromhex(h) for h in r["hashes"]})
         allm += r["mismatches"]
         # iterate chunk lengths vs the model's iterate_ranges (n=10): ceil(n/step) chunks of `step`, last one shorter
@@ -393,6 +495,7 @@ def run(ck: vlib.Check):
                 ck.sample({"file": fname, "branch": rec["branch"], "case": case, "model": {"asked": asked, "counts": counts},
                            "implementation": {"asked": rec["asked"], "counts": rec["counts"], "cg_type": rec.get("cg_type")}})
     ck.cov["model_vs_implementation_cases"] = n_model_cmp
+    native_route(ck, outs_json, per_file)
     ck.cov["exhaustive"] = False
     ck.cov["exhaustive_parts"] = ("all 55 intervals, all 10 step sizes for every branch"
                                   + ("; all 512 basket compositions of 10 events for every branch" if ck.tier == "thorough" else ""))
